@@ -49,6 +49,7 @@ class FnSpec:
         self.body = {}            # begin|end -> text
         self.iters = set()
         self.stmts = {}           # k -> {before|after: text}
+        self.lstmts = {}          # (loop, k) -> {before|after: text}
         self.r3 = []
         self.r4 = []
         self.replaces = []        # (rule, old, new)
@@ -111,6 +112,9 @@ def parse_vspec(path, rel):
             elif kind == 'stmt':
                 cur.stmts.setdefault(section[1], {}).setdefault(section[2], '')
                 cur.stmts[section[1]][section[2]] += text
+            elif kind == 'lstmt':
+                cur.lstmts.setdefault((section[1], section[2]), {}).setdefault(section[3], '')
+                cur.lstmts[(section[1], section[2])][section[3]] += text
         buf = []
         section = None
 
@@ -175,6 +179,12 @@ def parse_vspec(path, rel):
                 if len(a) != 2 or a[1] not in ('before', 'after'):
                     raise ExtractError('%s:%d: @stmt K before|after' % (rel, ln))
                 section = ('stmt', int(a[0]), a[1])
+            elif d == '@lstmt':
+                flush()
+                a = arg.split()
+                if len(a) != 3 or a[2] not in ('before', 'after'):
+                    raise ExtractError('%s:%d: @lstmt LOOP K before|after' % (rel, ln))
+                section = ('lstmt', int(a[0]), int(a[1]), a[2])
             elif d == '@body':
                 flush()
                 if arg.strip() not in ('begin', 'end'):
@@ -705,6 +715,17 @@ class Generator:
                 add(lp.close, 0, 'splice:loop%d-end' % k, '\n' + d['end'])
             if d.get('after'):
                 add(lp.close + 1, 2, 'splice:loop%d-after' % k, '\n' + d['after'])
+        for (lk, k), d in sp.lstmts.items():
+            if lk < 1 or lk > len(loops):
+                raise ExtractError('lost anchor: %s refers to loop %d, function %s has %d loops' % (sp.origin, lk, fn.name, len(loops)))
+            lst = rsparse.split_statements(s, m, loops[lk - 1].open + 1, loops[lk - 1].close)
+            if k < 1 or k > len(lst):
+                raise ExtractError('lost anchor: %s refers to statement %d of loop %d, which has %d statements'
+                                   % (sp.origin, k, lk, len(lst)))
+            if d.get('before'):
+                add(lst[k - 1][0], 0, 'splice:loop%d-stmt%d-before' % (lk, k), d['before'])
+            if d.get('after'):
+                add(lst[k - 1][1], 3, 'splice:loop%d-stmt%d-after' % (lk, k), '\n' + d['after'])
         if sp.stmts:
             stmts = rsparse.split_statements(s, m, fn.body_open + 1, fn.body_close)
             for k, d in sp.stmts.items():
